@@ -25,6 +25,12 @@
 (*           other negative numbers = any other outcome                    *)
 (*  allk/allv, mallk/mallv   what the two All() iterators yielded          *)
 (*  size     nametree.Size / numtree.Size (-1: error)                      *)
+(*  nest, mnest   nested use of the streaming / in-memory reader: All()    *)
+(*           consumed completely (ok/ov: keys, values as yielded) by a     *)
+(*           consumer that at some entries calls Lookup on the same reader *)
+(*           (lk: ranks asked, la: answers) and starts a second All() it   *)
+(*           leaves after three entries (ak/av: what those yielded, ac:    *)
+(*           how many were started)                                        *)
 (*  exits    early exits: [k, sk, sv, mk, mv, sp, mp] - All() of the        *)
 (*           streaming (s) / in-memory (m) reader consumed by a function   *)
 (*           that returns false from its k-th call on: everything it was   *)
@@ -93,6 +99,19 @@ ExitParts(c) ==
      \o (IF \A i \in 1..Len(c.exits) : LET e == c.exits[i] IN ExitOK(all, e.k, e.mk, e.mv, e.mp)
          THEN <<>> ELSE <<"EarlyExitInMemory">>)
 
+\* nested use: the outer enumeration is complete and ascending, every nested answer is right
+ReentrantOK(c, all, x) ==
+  LET p == IF Len(all) < 3 THEN Len(all) ELSE 3
+  IN /\ Len(x.ok) = Len(x.ov) /\ Zip(x.ok, x.ov) = all
+     /\ Len(x.lk) = Len(x.la)
+     /\ \A i \in 1..Len(x.lk) : x.la[i] = c.val[x.lk[i]]      \* RefLookup: the value id, -1 for an absent key
+     /\ Len(x.ak) = x.ac * p /\ Len(x.av) = Len(x.ak)
+     /\ \A j \in 1..Len(x.ak) : <<x.ak[j], x.av[j]>> = all[((j - 1) % p) + 1]
+NestParts(c) ==
+  LET all == RefAllOf(c)
+  IN (IF ReentrantOK(c, all, c.nest) THEN <<>> ELSE <<"Reentrant">>)
+     \o (IF ReentrantOK(c, all, c.mnest) THEN <<>> ELSE <<"ReentrantInMemory">>)
+
 \* the in-memory value itself shows the map
 ValueParts(c, mm) ==
   IF ~c.mem THEN <<>>
@@ -114,6 +133,7 @@ Parts(c) ==
         \o (IF Len(c.lk) = U /\ Len(c.ml) = U /\ \A r \in 1..U : c.lk[r] = -1 /\ c.ml[r] = -1 THEN <<>> ELSE <<"Faithful">>)
         \o (IF c.allk = <<>> /\ c.mallk = <<>> /\ c.size = 0 THEN <<>> ELSE <<"Enumerates">>)
         \o ExitParts(c)
+        \o NestParts(c)
      ELSE IF c.rootnull \/ c.root = 0 THEN ValueParts(c, mm) \o <<"EmptyNoTree">>
      ELSE IF ~IsTree(c) THEN <<"Valid">>
      ELSE
@@ -130,6 +150,7 @@ Parts(c) ==
                /\ c.allk = c.mallk /\ c.allv = c.mallv THEN <<>> ELSE <<"ReadersAgree">>)
         \o (IF c.size = n THEN <<>> ELSE <<"Size">>)
         \o ExitParts(c)
+        \o NestParts(c)
 CaseOK(c) == Parts(c) = <<>>
 
 VARIABLES i, bad, why, done
